@@ -15,7 +15,7 @@ from engine import circuits as cz
 from engine import project as pj
 
 
-def solve(graph, rep, backend, setting=1):
+def solve(graph, rep, backend, setting=1, again=False):
     """-> (record for Trace_CircuitAll, circuit or None)"""
     from graphiq.backends.stabilizer.compiler import StabilizerCompiler
     from graphiq.backends.density_matrix.compiler import DensityMatrixCompiler
@@ -30,6 +30,8 @@ def solve(graph, rep, backend, setting=1):
         compiler.measurement_determinism = "probabilistic" if setting == 2 else setting
         solver = TimeReversedSolver(target=target, metric=Infidelity(target), compiler=compiler)
         solver.solve()
+        if again:
+            solver.solve()          # the same solver object asked again: the second answer is the one that is judged
         score, circuit = solver.result
         circ, nodes = cz.project_circuit(circuit)
         order = cz.sequence_order(circuit, nodes)
@@ -78,7 +80,7 @@ def run(ctx):
         for rep, backend in choices:
             if n > 4 and (rep == "dm" or backend == "dm"):
                 continue           # density-matrix legs are bounded to 4 photons (+ emitters)
-            rec, circuit = solve(g, rep, backend, setting=rng.choice([0, 1, 2]))
+            rec, circuit = solve(g, rep, backend, setting=rng.choice([0, 1, 2]), again=(gi % 5 == 3))
             tid += 1
             rec["tid"] = tid
             rec["meta"] = {"n": n, "edges": rec["target"]["edges"], "rep": rep, "backend": backend,
